@@ -9,6 +9,14 @@ from .loader import AnalysisError
 _cache = {}
 
 
+def is_criterion_value(v):
+    def member(x):
+        return x[0] == 'attr' and x[1] == S('Optimisation_options')
+    if member(v):
+        return True
+    return v[0] in ('tuple', 'list') and len(v[1]) >= 1 and member(v[1][0])
+
+
 class Event:
     def __init__(self, kind, eff, ctx, order):
         self.kind, self.eff, self.ctx, self.order = kind, eff, ctx, order
@@ -19,7 +27,8 @@ class Event:
         self.sym_ifs = [(c, br) for c, br in allifs if not is_status_cond(c.cond)]
         self.loops = [c for c, _ in ctx if c.kind in ('for', 'while')]
         self.calls = [c.target.qualname for c, _ in ctx if c.kind == 'call']
-        self.iters = [c for c, _ in ctx if c.kind == 'iter']
+        # unrolled iterations of the criterion list (configuration); an unrolled loop over a literal tuple of expressions is not one
+        self.iters = [c for c, _ in ctx if c.kind == 'iter' and is_criterion_value(c.value)]
 
     @property
     def loc(self):
@@ -203,8 +212,8 @@ def lb_agreement(rep, r, rule, cfg):
     for ev in r.of('addc'):
         if ev.fam is not None and any((m.var or '').startswith('d[') for m in ev.fam.monos) and ev.iters:
             uses.append(ev)
-        if ev.fam is None and ev.err and 'abs_lec_diff' in ev.err:
-            undeclared.append(ev)
+        if ev.fam is None and ev.err and 'abs_lec_diff' in ev.err and 'abs_lec_diff' not in r.canon.var_arrays:
+            undeclared.append(ev)          # the criterion reads model.abs_lec_diff and no variable array of that name was declared in this run
     where = r.repo.method('LP_Solver', 'add_constraints', required=False)
     where = where.where if where else r.repo.method('LP_Solver', 'run').where
     for ev in undeclared:
